@@ -68,6 +68,10 @@ CHECKS = {
         text='Symmetry-image collection is specified with integer operations (W, w) in the fractional basis and the integer metric tensor; TLC checks within-radius and distance preservation for every site/point position of small line and plane groups (and refutes the original +-1 re-imaging), and compares the multiset of points returned by ShapeAnalyzer for 7 space groups in compatible cells, 3 orientations and integer supercells with the spec.',
         note='Trusted: TLC; pymatgen space-group operations (asserted to be isometries of the metric tensor); radius below half the smallest perpendicular width.',
         ref='DESIGN.md 8/C17', technique='TLA+ spec Shape.tla; TLC model checking (MC_Shape + negative control) + trace validation (TraceShape.tla) with multiset comparison'),
+    'C18': dict(
+        text='Matching, minimum-image bond vectors, images under orthogonal operations, linear maps and autocorrelation numerators are TLA+ operators over integer grid positions; TLC checks group-closure / transpose / invariance lemmas exhaustively for a point group on small vectors and prints the expected integers for harness-generated cluster trajectories, against which Orientations.vectors, lengths, normalize, symmetrize (20 point groups, both call forms), transform and autocorrelation are compared.',
+        note='Trusted: TLC; pymatgen point-group matrices (asserted orthogonal); Cartesian clauses in an integer-matrix cubic cell with Pythagorean-quadruple bonds. vectors_spherical invertibility is not covered. The autocorrelation deviation (irfft length) is known finding D15.',
+        ref='DESIGN.md 8/C18', technique='TLA+ spec Orient.tla; TLC model checking (MC_Orient) + TLC as exact oracle on recorded inputs (TraceOrient.tla)'),
     'C19': dict(
         text='TLC checks on every bounded history and every cut that part jumps are jumps of the whole; recorded split() results of the real code are validated by the trace spec for partition, exactly-once, re-basing and chronology with an offset witness.',
         note='Where part boundaries fall is deliberately not constrained. Trusted: TLC, harness witness search (exhaustive, verified by TLC).',
